@@ -610,8 +610,12 @@ tx_outs:\n{tx_outs}
             # native segwit is only spendable through the witness, the ScriptSig has to be empty
             if len(script_sig_commands) > 0:
                 return False
-        elif script_pubkey.is_p2sh() and len(script_sig_commands) > 1:
-            last = script_sig_commands[-1]
+        elif script_pubkey.is_p2sh():
+            # BIP16: the ScriptSig of a p2sh spend only pushes data, otherwise
+            # the RedeemScript can be hashed without ever being executed
+            if any(isinstance(c, int) and c > 96 for c in script_sig_commands):
+                return False
+            last = script_sig_commands[-1] if len(script_sig_commands) > 1 else None
             if isinstance(last, bytes):
                 redeem_script = RedeemScript.convert(last)
                 if redeem_script.is_p2wpkh() or redeem_script.is_p2wsh():
